@@ -1,6 +1,7 @@
 // U7: src/write.rs -- the ZipWriter state machine (C01, C02, C08, C09, C11, C12, C13, C14, C17)
 use vstd::prelude::*;
 use std::borrow::Cow;
+use vstd::std_specs::iter::IteratorSpec;
 verus! {
 //@include shims/io.rs
 //@include shims/prelude.rs
@@ -134,6 +135,26 @@ impl<W: Write + io::Seek> ZipWriter<W> {
 //@use zw_end_local_start_central_extra_data
 //@use zw_start_file_aligned
 //@use zw_add_symlink
+//@use zw_finalize
+//@use zw_finish
+}
+// C02/C08: what finalize leaves behind the central directory that starts at `cs` and is `csz` bytes long
+pub open spec fn fin_ok(bytes: Seq<u8>, pos: int, n: int, comment: Seq<u8>, cs: int, csz: int, z64: bool) -> bool {
+    let e = Eocd { disk: 0, cd_disk: 0,
+                   n_this: (if n > 0xFFFF { 0xFFFFu16 } else { n as u16 }), n_total: (if n > 0xFFFF { 0xFFFFu16 } else { n as u16 }),
+                   cd_size: sat32(csz as u64), cd_off: sat32(cs as u64), comment: comment };
+    let zr = Z64Eocd { made_by: 46, needed: 46, disk: 0, cd_disk: 0, n_this: n as u64, n_total: n as u64, cd_size: csz as u64, cd_off: cs as u64 };
+    let zl = Z64Loc { cd_disk: 0, z64_off: (cs + csz) as u64, n_disks: 1 };
+    let tail = if z64 { cs + csz + 76 } else { cs + csz };
+    &&& 0 <= cs && 0 <= csz && cs + csz <= MAX_OFF
+    // ZIP64 records are present whenever a count, size or offset does not fit its field
+    &&& ((n > 0xFFFF || csz > U32MAX || cs > U32MAX) ==> z64)
+    // and whenever present they carry the exact values and point at each other
+    &&& (z64 ==> inb(bytes, cs + csz, 76) && at(bytes, cs + csz, 56) == enc_z64eocd(zr) && at(bytes, cs + csz + 56, 20) == enc_z64loc(zl))
+    // the end record closes the file; each field is exact, or saturated with the ZIP64 record present
+    &&& inb(bytes, tail, 22 + comment.len() as int) && at(bytes, tail, 22 + comment.len() as int) == enc_eocd(e)
+    &&& pos == tail + 22 + comment.len()
+    &&& (!z64 ==> e.n_total as int == n && e.cd_size as int == csz && e.cd_off as int == cs)
 }
 // C17: the padding formula of start_file_aligned lands on a multiple of the alignment
 pub proof fn lemma_align(x: int, a: int)
